@@ -246,10 +246,95 @@ fn c07(r: &mut Rep) {
     }
 }
 
+fn c14(r: &mut Rep) {
+    use x86_64::structures::gdt::{Descriptor, DescriptorFlags, GlobalDescriptorTable};
+    // contents, selectors and limit agree — with a 32-bit usize too (slots are 8 bytes whatever the pointer width)
+    fn hist<const M: usize>(r: &mut Rep, kinds: &[u8]) {
+        let mut g = GlobalDescriptorTable::<M>::empty();
+        let mut reference = vec![0u64];
+        for (i, &k) in kinds.iter().enumerate() {
+            r.ev(true);
+            let (d, slots): (Descriptor, Vec<u64>) = if k == 0 {
+                let v = DescriptorFlags::USER_DATA.bits() | i as u64;
+                (Descriptor::UserSegment(v), vec![v])
+            } else {
+                (Descriptor::SystemSegment(0x0000_8900_0000_0067 | (i as u64) << 16, 0x1_0000_0000 + i as u64), vec![0x0000_8900_0000_0067 | (i as u64) << 16, 0x1_0000_0000 + i as u64])
+            };
+            let fits = reference.len() + slots.len() <= M;
+            let first = reference.len();
+            match catch(|| g.append(d)) {
+                Ok(sel) if fits => {
+                    if sel.0 != ((first as u16) << 3) | ((slots[0] >> 45) & 3) as u16 {
+                        r.viol("C14|selector-wrong-on-a-32-bit-host", &format!("gdt32 {} {:?} step {}", M, kinds, i), &format!("{:#x}", sel.0));
+                    }
+                    reference.extend_from_slice(&slots);
+                }
+                Ok(_) => r.viol("C14|append-beyond-capacity-succeeded-on-a-32-bit-host", &format!("gdt32 {} {:?} step {}", M, kinds, i), ""),
+                Err(()) => {
+                    if fits {
+                        r.viol("C14|append-panics-although-it-fits-on-a-32-bit-host", &format!("gdt32 {} {:?} step {}", M, kinds, i), "");
+                    }
+                }
+            }
+            let got: Vec<u64> = g.entries().iter().map(|e| e.raw()).collect();
+            if got != reference || g.limit() as usize != 8 * reference.len() - 1 {
+                r.viol("C14|entries-or-limit-wrong-on-a-32-bit-host", &format!("gdt32 {} {:?} step {}", M, kinds, i), &format!("limit {} for {} slots", g.limit(), reference.len()));
+            }
+            let h = GlobalDescriptorTable::<M>::from_raw_entries(&reference);
+            if h.entries().iter().map(|e| e.raw()).collect::<Vec<u64>>() != reference || h.limit() != g.limit() {
+                r.viol("C14|from_raw_entries-does-not-reproduce-on-a-32-bit-host", &format!("gdt32 {} {:?} step {}", M, kinds, i), "");
+            }
+        }
+    }
+    for code in 0..64u32 {
+        let kinds: Vec<u8> = (0..6).map(|i| (code >> i & 1) as u8).collect();
+        hist::<8>(r, &kinds);
+        if code < 8 {
+            hist::<3>(r, &kinds[..3]);
+        }
+    }
+    // a full large table
+    let mut g = Box::new(GlobalDescriptorTable::<8192>::empty());
+    for _ in 0..8191 {
+        g.append(Descriptor::kernel_data_segment());
+    }
+    r.ev(true);
+    if g.limit() != 0xffff || g.entries().len() != 8192 {
+        r.viol("C14|limit-of-a-full-table-wrong-on-a-32-bit-host", "gdt32 full", &format!("{:#x}", g.limit()));
+    }
+}
+
+fn c08(r: &mut Rep) {
+    use x86_64::structures::paging::{PageTable, PageTableFlags, PageTableIndex};
+    r.ev(true);
+    if core::mem::size_of::<PageTable>() != 4096 || core::mem::align_of::<PageTable>() != 4096 || core::mem::size_of::<x86_64::structures::paging::page_table::PageTableEntry>() != 8 {
+        r.viol("C08|PageTable|layout-wrong-on-a-32-bit-host", "table32 layout", "");
+    }
+    let mut t = Box::new(PageTable::new());
+    for i in [0usize, 1, 255, 256, 510, 511] {
+        r.ev(true);
+        let v = 0x000f_ffff_0000_0000u64 | (i as u64) << 12;
+        t[i].set_addr(PhysAddr::new(v), PageTableFlags::PRESENT | PageTableFlags::NO_EXECUTE);
+        let raw = unsafe { *(&*t as *const PageTable as *const u64).add(i) };
+        let via_index = t[PageTableIndex::new(i as u16)].addr().as_u64();
+        let via_iter = t.iter().nth(i).map(|e| e.addr().as_u64());
+        if raw != v | 1 | 1 << 63 || via_index != v || via_iter != Some(v) || t[i].flags().bits() & 0xfff0_0000_0000_0fff != 1 | 1 << 63 {
+            r.viol("C08|PageTable|entry-or-access-paths-wrong-on-a-32-bit-host", &format!("table32 slot {}", i), &format!("raw {:#x} index {:#x} iter {:x?} flags {:#x}", raw, via_index, via_iter, t[i].flags().bits()));
+        }
+    }
+    if t.is_empty() {
+        r.viol("C08|PageTable::is_empty|true-for-populated-table-on-a-32-bit-host", "table32", "");
+    }
+    t.zero();
+    if !t.is_empty() {
+        r.viol("C08|PageTable::zero|leaves-entries-on-a-32-bit-host", "table32", "");
+    }
+}
+
 fn main() {
     out::silence_panics();
     let only = std::env::args().nth(1);
-    let parts: [(&str, fn(&mut Rep)); 4] = [("C04", c04), ("C05", c05), ("C06", c06), ("C07", c07)];
+    let parts: [(&str, fn(&mut Rep)); 6] = [("C04", c04), ("C05", c05), ("C06", c06), ("C07", c07), ("C08", c08), ("C14", c14)];
     for (p, f) in parts {
         if only.as_deref().map_or(true, |o| o == p || o == "all") {
             let mut r = Rep::new(p, &format!("usize-{}-bit-host", usize::BITS));
